@@ -611,7 +611,7 @@ func runC19(ctx Ctx) int {
 	{
 		cb, cs := 1, 90
 		if ev.Tier() == "thorough" {
-			cb, cs = 2, 1200
+			cb, cs = 2, 180
 		}
 		runConc(run, "C19", cb, cs)
 	}
